@@ -446,7 +446,8 @@ class Evaluator:
                 return ("pyfunc", getattr(struct, attr))
             return ("ext", base[1] + "." + attr)
         for t, names in _PURE_METHODS.items():
-            if type(base) is t and attr in names:
+            if (type(base) is t or t is dict and isinstance(base, dict)) \
+                    and attr in names:
                 return ("pyfunc", getattr(base, attr))
         if isinstance(base, struct.Struct) and attr in (
                 "pack", "unpack", "unpack_from", "pack_into", "size",
